@@ -6,6 +6,8 @@ import atexit, hashlib, json, os, re, shutil, signal, subprocess, sys, time
 
 VERIF = os.path.dirname(os.path.dirname(os.path.abspath(__file__)))
 REPO = os.environ.get("VERIF_REPO", "/repo")
+# evidence/ and replays/ go below VERIF unless a mutation run (tools/seedmatrix.py) redirects them
+OUTDIR = os.environ.get("VERIF_OUTDIR") or os.path.dirname(os.path.dirname(os.path.abspath(__file__)))
 SPEC = os.path.join(VERIF, "spec")
 HARNESS = os.path.join(VERIF, "harness")
 TLA_CP = "/opt/veriftools/tla/tla2tools.jar:/opt/veriftools/tla/CommunityModules-deps.jar"
@@ -222,7 +224,7 @@ def finish(ctx, level, coverage, assumptions=(), vacuous=None):
     for text, vs in known.items():
         print("KNOWN-FINDING: property=%s %s  [re-found %d time(s) in this run]" % (ctx.id, text.replace("property=%s " % ctx.id, ""), len(vs)))
     rc = 0
-    rdir = os.path.join(VERIF, "replays", ctx.id)
+    rdir = os.path.join(OUTDIR, "replays", ctx.id)
     if os.path.isdir(rdir) and not getattr(ctx, "replay", None):
         for fn in os.listdir(rdir):
             if fn.startswith(ctx.tier + "_"):
@@ -253,8 +255,8 @@ def finish(ctx, level, coverage, assumptions=(), vacuous=None):
         cov["notes"] = ctx.notes
     ev = {"property_id": ctx.id, "tier": ctx.tier, "seed": ctx.seed, "level": level, "coverage": cov,
           "assumptions": list(assumptions), "wall_s": round(time.time() - ctx.t0, 2), "violations": len(fresh)}
-    os.makedirs(os.path.join(VERIF, "evidence"), exist_ok=True)
-    json.dump(ev, open(os.path.join(VERIF, "evidence", ctx.id + ".json"), "w"), indent=1, default=str)
+    os.makedirs(os.path.join(OUTDIR, "evidence"), exist_ok=True)
+    json.dump(ev, open(os.path.join(OUTDIR, "evidence", ctx.id + ".json"), "w"), indent=1, default=str)
     ctx.log("done: %d violation(s), %d known finding class(es), %.1fs" % (len(fresh), len(known), time.time() - ctx.t0))
     sys.exit(rc)
 
